@@ -1,4 +1,156 @@
+(* C12 - ISO-DEP exchanges each APDU exactly once or reports a tag error.
+   Only statements here; proofs are in Proofs/IsoDep.v, Proofs/IsoDepSync.v, Proofs/IsoDepLegacy.v.
+
+   Reader  = IsoDepInitiator.exchange of tt4.py with fixes/c12-wtx-*.diff applied ([repaired k];
+             the R(ACK) budget fix_rack is not assumed: the theorems hold with and without it).
+   Card    = [picc_absorb]: ISO/IEC 14443-4 block rules, ANY application [app], ANY S(WTX) plan.
+   Air     = ANY script of (request fate, response fate) in {deliver, lose, corrupt}.
+   [in_step pn c]: reader and card block numbers in step - after activation and after every
+   successful exchange ([C12_isodep_result_sound] re-establishes it), so the theorems apply to every
+   exchange of a session up to and including the first one that fails.  What happens after a failed
+   exchange is the known finding witnessed by [C12_after_failed_exchange_refuted]. *)
 From Coq Require Import ZArith List Bool.
-From NV Require Import Base.Result Base.Bytes Model.IsoDep.
-Theorem C12_placeholder : True. Proof. exact I. Qed.
-Print Assumptions C12_placeholder.
+From NV Require Import Base.Result Base.Bytes Model.IsoDep Proofs.IsoDep Proofs.IsoDepSync Proofs.IsoDepLegacy Proofs.IsoDepApdu Proofs.IsoDepStream.
+Import ListNotations.
+Open Scope Z_scope.
+
+(* no block the reader puts on the air exceeds the frame size: PCB + INF + 2 EDC bytes <= miu + 3 = FSC,
+   for every command length, fault script, WTX plan and fuel *)
+Theorem C12_isodep_block_bound : forall app k kc cmd pn c, repaired k -> params_ok k kc -> in_step pn c -> 0 < len cmd ->
+  forall fuel sc, Forall (fun b => len b + 2 <= miu k + 3) (o_blocks (exchange app fuel k kc cmd pn c sc)).
+Proof. exact exchange_block_bound. Qed.
+Print Assumptions C12_isodep_block_bound.
+
+(* ... and FSC as derived at activation never exceeds the card's frame size or what the device can send *)
+Theorem C12_isodep_activation_fsc : forall fsci fwti max_send max_recv,
+  let p := t4_params fsci fwti max_send max_recv in
+  a_fsc p <= fsc_of (if fsci >? 8 then 8 else fsci) /\ a_fsc p <= Z.max max_send (a_fsc p) /\
+  (a_fsc p <= max_send \/ a_fsc p = fsc_of (if fsci >? 8 then 8 else fsci)) /\ a_miu p = a_fsc p - 3.
+Proof. exact t4_params_fsc. Qed.
+Print Assumptions C12_isodep_activation_fsc.
+
+(* without faults: every command size and response size (chaining both ways), S(WTX) at any and every
+   opportunity - the APDU is executed exactly once and its complete response is returned *)
+Theorem C12_isodep_nofault_exact : forall app k kc cmd pn c, repaired k -> params_ok k kc -> in_step pn c -> 0 < len cmd ->
+  forall fuel sc, nofault sc -> enough_fuel app k cmd c fuel ->
+  let o := exchange app fuel k kc cmd pn c sc in
+  o_res o = Ok (response app c cmd) /\ execs (o_card o) = execs c ++ [cmd] /\ in_step (o_pni o) (o_card o).
+Proof. exact exchange_nofault_exact. Qed.
+Print Assumptions C12_isodep_nofault_exact.
+
+(* for EVERY fault script (and fuel): the card executes the APDU at most once, and nothing else *)
+Theorem C12_isodep_at_most_once : forall app k kc cmd pn c, repaired k -> params_ok k kc -> in_step pn c -> 0 < len cmd ->
+  forall fuel sc, let o := exchange app fuel k kc cmd pn c sc in
+  execs (o_card o) = execs c \/ execs (o_card o) = execs c ++ [cmd].
+Proof. exact exchange_at_most_once. Qed.
+Print Assumptions C12_isodep_at_most_once.
+
+(* for EVERY fault script: a returned value is the complete response of the single execution of this APDU
+   (never truncated, duplicated or stale) and leaves reader and card in step; anything else is
+   Type4TagCommandError - no raw clf error, no crash; Hang only if the fuel was below the bound *)
+Theorem C12_isodep_result_sound : forall app k kc cmd pn c, repaired k -> params_ok k kc -> in_step pn c -> 0 < len cmd ->
+  forall fuel sc, let o := exchange app fuel k kc cmd pn c sc in
+  match o_res o with
+  | Ok r => r = response app c cmd /\ execs (o_card o) = execs c ++ [cmd] /\ in_step (o_pni o) (o_card o)
+  | Err (TagCommandError _) => True
+  | Hang => Z.of_nat fuel < fuel_bound app k cmd (execs c) c
+  | _ => False
+  end.
+Proof. exact exchange_result_sound. Qed.
+Print Assumptions C12_isodep_result_sound.
+
+(* for EVERY fault script the exchange ends within fuel_bound = O((|cmd| + |response|) * budget + #WTX) rounds:
+   the reader never hangs against the conformant card *)
+Theorem C12_isodep_terminates : forall app k kc cmd pn c, repaired k -> params_ok k kc -> in_step pn c -> 0 < len cmd ->
+  forall fuel sc, enough_fuel app k cmd c fuel ->
+  let o := exchange app fuel k kc cmd pn c sc in
+  o_res o = Ok (response app c cmd) \/ exists e, o_res o = Err (TagCommandError e).
+Proof. exact exchange_terminates. Qed.
+Print Assumptions C12_isodep_terminates.
+
+(* "any pattern of lost or corrupted blocks the recovery rules can absorb": EVERY script with at most F faulty
+   rounds (any kind, anywhere in the exchange, chaining and WTX included) is absorbed and yields the exact result
+   when 2F-1 <= retry budget (budget 1: one fault, 3: two, 5: three); F = 0 is the fault-free case.
+   (The code counts R(ACK)-triggered retransmissions against the same budget, hence 2F-1; patterns beyond this
+   bound that the monitor classifies as absorbable are checked by the harness only.) *)
+Theorem C12_isodep_absorbs : forall app k kc cmd pn c, repaired k -> params_ok k kc -> in_step pn c -> 0 < len cmd ->
+  forall fuel sc F, faults sc <= F -> 2 * F - 1 <= n_nak k -> 2 * F - 1 <= n_ack k -> enough_fuel app k cmd c fuel ->
+  let o := exchange app fuel k kc cmd pn c sc in
+  o_res o = Ok (response app c cmd) /\ execs (o_card o) = execs c ++ [cmd] /\ in_step (o_pni o) (o_card o).
+Proof. exact exchange_absorbs. Qed.
+Print Assumptions C12_isodep_absorbs.
+
+(* Type4Tag.send_apdu on top: a returned value is the response of the single execution of the encoded APDU with
+   status word 9000 stripped (check_status) or included; anything else is Type4TagCommandError (status word or
+   transmission failure) or the documented ValueError before anything is sent *)
+Theorem C12_send_apdu_sound : forall app k kc cla ins p1 p2 data mrl check pn c,
+  repaired k -> params_ok k kc -> in_step pn c ->
+  forall fuel sc, let o := send_apdu app fuel k kc cla ins p1 p2 data mrl check pn c sc in
+  match apdu_build cla ins p1 p2 data mrl with
+  | Ok a =>
+      (execs (o_card o) = execs c \/ execs (o_card o) = execs c ++ [a]) /\
+      match o_res o with
+      | Ok r => execs (o_card o) = execs c ++ [a] /\ in_step (o_pni o) (o_card o) /\
+                (if check then response app c a = r ++ [144; 0] else response app c a = r)
+      | Err (TagCommandError _) => True
+      | Hang => Z.of_nat fuel < fuel_bound app k a (execs c) c
+      | _ => False
+      end
+  | _ => o_res o = Err ValueError /\ o_card o = c /\ o_blocks o = []
+  end.
+Proof. exact send_apdu_sound. Qed.
+Print Assumptions C12_send_apdu_sound.
+
+(* ---- the reader as pinned (fix flags off) violates the property: concrete runs ---- *)
+(* S(WTX) answered outside the try: one lost block, within the budget, escapes as raw nfc.clf.TimeoutError *)
+Theorem C12_legacy_wtx_raw_timeout_refuted :
+  o_res (exchange demo_app 50 k_legacy kc16 [255; 0; 0; 5] 0 (picc_init [[1]]) [(FD, FD); (FD, FL)]) = Err TimeoutError.
+Proof. exact legacy_wtx_raw_timeout. Qed.
+Print Assumptions C12_legacy_wtx_raw_timeout_refuted.
+(* S(WTX) while the card chains its response: the exchange fails without any fault *)
+Theorem C12_legacy_wtx_chaining_refuted :
+  exists e, o_res (exchange demo_app 50 k_legacy kc16 [255; 0; 0; 30] 0 (picc_init [[]; [3]]) []) = Err (TagCommandError e).
+Proof. exact legacy_wtx_chaining_fails. Qed.
+Print Assumptions C12_legacy_wtx_chaining_refuted.
+(* outside C12 (non-conformant responder, recorded for C08): without fixes/c12-rack-retransmit-budget.diff
+   a responder that keeps answering R(ACK) with the other block number makes the reader send for ever *)
+Theorem C12_rack_loop_unbudgeted_refuted : forall k cmd, fix_rack k = false -> 0 < miu k -> 0 < len cmd ->
+  forall fuel, run_stream fuel k cmd (pcd_start k cmd 0) (fun _ => ARx [163]) 0 = Hang.
+Proof. exact rack_loop_unbudgeted. Qed.
+Print Assumptions C12_rack_loop_unbudgeted_refuted.
+
+(* outside C12, for C08 ("a tag can never make the reader loop"): with all three repairs the reader stops against
+   ANY responder [s] (the n-th clf.exchange yields [s n], whatever was sent) that uses at most W of the two means
+   the standard gives a card to keep the reader waiting (S(WTX), chained response blocks) *)
+Theorem C12_isodep_terminates_any_responder : forall k cmd,
+  fix_wtx_try k = true -> fix_wtx_chain k = true -> fix_rack k = true -> 0 < miu k -> 0 <= n_nak k -> 0 <= n_ack k ->
+  forall pn s W fuel, 0 < len cmd -> (forall N, wild s N <= W) ->
+  (CC k + 1) * (len cmd + 2 + W) + CC k <= Z.of_nat fuel ->
+  run_stream fuel k cmd (pcd_start k cmd pn) s 0 <> Hang.
+Proof. exact stream_terminates. Qed.
+Print Assumptions C12_isodep_terminates_any_responder.
+(* ... but an S(WTX) block without WTXM byte still raises IndexError (data[1]); for C08 *)
+Theorem C12_short_wtx_crash_refuted :
+  run_stream 5 k_repaired [0; 164; 0; 0] (pcd_start k_repaired [0; 164; 0; 0] 0) (fun _ => ARx [242]) 0 = Crash IndexErr /\
+  run_stream 5 k_legacy [0; 164; 0; 0] (pcd_start k_legacy [0; 164; 0; 0] 0) (fun _ => ARx [242]) 0 = Crash IndexErr.
+Proof. exact short_wtx_crash. Qed.
+Print Assumptions C12_short_wtx_crash_refuted.
+
+(* ---- known finding, not cured by the repairs: an exchange that follows a FAILED one ---- *)
+(* reader and card may be out of step ([in_step] fails); one lost block then makes the card execute the
+   APDU twice, or the caller gets the previous command's response *)
+Theorem C12_after_failed_exchange_refuted :
+  (map o_res after_failure_session = [Err (TagCommandError E_TIMEOUT); Ok (demo_app 2 [255; 2; 0; 5])] /\
+   map (fun o => execs (o_card o)) after_failure_session = [[[255; 1; 0; 5]]; [[255; 1; 0; 5]; [255; 2; 0; 5]; [255; 2; 0; 5]]]) /\
+  (map o_res after_failure_stale = [Err (TagCommandError E_TIMEOUT); Ok (demo_app 0 [255; 1; 0; 5])] /\
+   map (fun o => execs (o_card o)) after_failure_stale = [[[255; 1; 0; 5]]; [[255; 1; 0; 5]]]).
+Proof. exact (conj after_failed_exchange_duplicate after_failed_exchange_stale). Qed.
+Print Assumptions C12_after_failed_exchange_refuted.
+
+(* non-vacuity: a 20-byte command and 20-byte response over FSC 16 (chaining both ways), two S(WTX),
+   four faulty rounds, budget 3 - meets every hypothesis above and completes *)
+Example C12_nonvacuous :
+  (repaired k_nv /\ params_ok k_nv kc16 /\ in_step 0 nv_card /\ 0 < len nv_cmd /\ enough_fuel demo_app k_nv nv_cmd nv_card 900) /\
+  (let o := exchange demo_app 900 k_nv kc16 nv_cmd 0 nv_card nv_script in
+   o_res o = Ok (demo_app 0 nv_cmd) /\ execs (o_card o) = [nv_cmd] /\ length (o_blocks o) = 10%nat).
+Proof. exact (conj nv_hyps nv_run). Qed.
